@@ -251,7 +251,8 @@ core.KNOWN_WITNESS["F-C09-2"] = _lw((4, [("Remove", 2, 3), ("GroupLayers", [3], 
 core.KNOWN_WITNESS["F-C09-3"] = _lw((2, [("SetClip", 3, True), ("GroupLayers", [1], 3)]), ("outcome-differs",))
 core.KNOWN_WITNESS["F-C09-4"] = _lw((4, [("GroupLayers", [2], 2)]), ("outcome-differs", "structure-differs"))
 core.KNOWN_WITNESS["F-C09-7"] = _lw((0, [("Extend", 5, [1]), ("Clear", 5), ("MoveToGroup", 1, 0)]), ("structure-differs",))
-core.KNOWN_WITNESS["F-C09-5"] = _pw({"source": "new", "mode": "RGB", "depth": 16, "scene": 4, "history": []}, ("save-raises", "layer-unreadable"))
+# since ea94750 only layers created WITHOUT a document (NewPixel with no document) and adopted later keep 8-bit planes
+core.KNOWN_WITNESS["F-C09-5"] = _pw({'source': 'new', 'mode': 'L', 'depth': 16, 'scene': 3, 'history': [['NewPixel', None, 0, 0, 1, 1], ['MoveUp', 7, -2], ['Pop', 0, -2], ['NewPixel', None, -1, 0, 1, 3], ['Append', 0, 2], ['NewGroup', 0], ['NewGroup', 1], ['Append', 9, 7], ['Clear', 3], ['SetItem', 0, 2, 8], ['SetItem', 6, 3, 9], ['GroupLayers', [2, 8], 10]]}, ("save-raises", "layer-unreadable"))
 core.KNOWN_WITNESS["F-C09-6"] = _pw({"source": "new", "mode": "CMYK", "depth": 8, "scene": 4, "history": []}, ("save-raises",))
 
 
